@@ -142,13 +142,13 @@ TABLE['C08'] = {
 }
 
 TABLE['C15'] = {
-    'modules': ['model_spec'], 'replay': 'worldload_replay', 'level': 'other',
+    'modules': ['model_spec', 'transformers_spec'], 'replay': 'worldload_replay', 'level': 'other',
     'bounded_hook': 'pyvc.bounded_native',
     'bound': 'descriptions written to JSON files and loaded through WorldFromFileHandle inside a resource tree (every third one through populate_world_from_dict with real types): one component/processor with each of 20 argument values (numbers, None, booleans, plain strings, strings with a marker not at the beginning, the three reference forms to objects, resources, sub-maps and handles, lists and dicts) as positional, keyword and mixed argument; all descriptions of 0..2 entities (3 in the thorough tier) drawn from 4 component lists x 4 identifiers (absent, strings, an integer) x 4 processor lists',
     'trusted_base': T_STATE,
-    'assumptions': ['json.load, open, copy.deepcopy, importlib.import_module, re (the three reference patterns) by their documented behaviour',
+    'assumptions': ['json.load, open, copy.deepcopy, importlib.import_module by their documented behaviour; re: match iff a prefix is in the language, group of an exact form is the text between the markers',
                     'constructors of listed types return new objects'],
-    'explanation': 'Deductive part: WorldHandle.load (new world, disabled before any transformer runs, every transformer called exactly once in deque order with (handle, world), on_world_load(handle, world) dispatched exactly once afterwards and queued last, returned disabled), the file handle\'s transformer list (defaults first), default_processors_transformer and populate_world_from_dict (exactly one construction per listed processor/component with the listed packs, add_processor / create_entity invoked with exactly those objects and identifiers, in order). The argument-reference transformers (regular expressions on strings, importlib) and the end-to-end statement are covered by the BOUNDED native stand-in only.',
+    'explanation': 'Deductive part: WorldHandle.load (new world, disabled before any transformer runs, every transformer called exactly once in deque order with (handle, world), on_world_load(handle, world) dispatched exactly once afterwards and queued last, returned disabled), the file handle\'s transformer list (defaults first), default_processors_transformer and populate_world_from_dict (exactly one construction per listed processor/component with the listed packs, add_processor / create_entity invoked with exactly those objects and identifiers, in order). The two map_function closures of the argument transformers are verified on z3 strings (patterns read from the real re.compile assignments): non-strings and strings not beginning with a marker pass through unchanged, the three exact forms are replaced by the named object / the loaded resource / the handle (markers taken from the property statement). That every element of args and every value of kwargs is run through them, type_dict_transformer, _apply_transformers, JSON reading and the end-to-end statement are covered by the BOUNDED native stand-in only.',
 }
 
 TABLE['C16'] = {
